@@ -332,6 +332,8 @@ impl<F: PathFetcher> MultiPathManager<F> {
             return Ok(ScionPath::local(src).expect("Checked for wildcard above"));
         }
 
+        #[cfg(feature = "verif-hooks")]
+        verif_sched::yield_point(verif_sched::YieldCtx::pair("c:before-peek", src, dst)).await;
         let try_path = self
             .0
             .managed_paths
@@ -345,6 +347,9 @@ impl<F: PathFetcher> MultiPathManager<F> {
             Some(active) => Ok(active),
             None => {
                 // Ensure paths are being managed
+                #[cfg(feature = "verif-hooks")]
+                verif_sched::yield_point(verif_sched::YieldCtx::pair("c:before-ensure", src, dst))
+                    .await;
                 let path_set = self.ensure_managed_paths(src, dst);
 
                 // Try to get active path, possibly waiting for initialization/update
@@ -360,6 +365,12 @@ impl<F: PathFetcher> MultiPathManager<F> {
                     Some(active) => Ok(active),
                     None => {
                         // No active path even after waiting, return last error if any
+                        #[cfg(feature = "verif-hooks")]
+                        verif_sched::yield_point(verif_sched::YieldCtx::handle(
+                            "c:before-read-err",
+                            &path_set,
+                        ))
+                        .await;
                         let last_error = path_set.current_error();
                         match last_error {
                             Some(e) => Err(e),
